@@ -4,6 +4,7 @@ From Coq Require Import List NArith Bool String.
 Import ListNotations.
 From JR Require Import Conn Conn_Proofs.
 From JRGen Require Extracted.
+From JR Require Skeletons.
 Open Scope N_scope.
 
 (* ids of distinct calls are distinct: a second call under an id in use is not a behaviour of the model
@@ -76,9 +77,39 @@ End SingleRequest.
 
 Theorem c02_source_facts :
   Extracted.response_id_checks =
-    ["NewCustomClient: resp.ID != cr.req.ID"; "httpClient: resp.ID != cr.req.ID"; "handleRpcCall: !fn.notify && resp.ID != req.ID"]%string.
-Proof. reflexivity. Qed.
+    ["NewCustomClient: resp.ID != cr.req.ID"; "httpClient: resp.ID != cr.req.ID"; "handleRpcCall: !fn.notify && resp.ID != req.ID"]%string /\
+  (* the connection loop waits on the callers' request channel itself in every iteration, next to incoming frames *)
+  nth 1 Extracted.selects_handleWsConn [] =
+    ["r, ok := <-c.incoming"; "rerr := <-c.readError"; "<-ctx.Done()"; "req := <-c.requests"; "<-c.pongs"; "<-timeoutCh"; "<-c.stop"]%string /\
+  (* a caller hands its request over, or learns that the connection is gone: nothing else *)
+  nth 0 Extracted.selects_setupRequestChan [] = ["requests <- cr"; "<-c.exiting"]%string.
+Proof. repeat split; reflexivity. Qed.
 
+(* any number of calls in flight: whether the loop can take the next queued request does not depend on how many requests
+   are registered and unanswered (nor on anything else about them) *)
+Theorem c02_take_enabled_under_any_load : forall v s id c,
+  is_exited s = false -> holding s = None -> lookup id (calls s) = Some c -> ph c = PEnq ->
+  exists s', step v s (LoopTake id) = Some s' /\ inflight s' = inflight s.
+Proof.
+  intros v s id c He Hh Hl Hp. simpl. rewrite He, Hh, Hl, Hp. eexists. split; reflexivity.
+Qed.
+
+(* the premises are met in a reachable state with requests in flight *)
+Example c02_take_premises_reachable :
+  exists s c, run repaired_c init [CallStart 1 false; LoopTake 1; LoopRegister 1; LoopSent 1 true; CallStart 2 false; LoopTake 2;
+                                   LoopRegister 2; LoopSent 2 true; CallStart 3 true]%N = Some s /\
+    is_exited s = false /\ holding s = None /\ lookup 3%N (calls s) = Some c /\ ph c = PEnq /\ List.length (inflight s) = 2%nat.
+Proof. vm_compute. eexists. eexists. repeat split. Qed.
+
+(* the functions this property's model is an abstraction of still have the control / locking / shared-state skeleton the
+   model was written against (Skeletons.v, by hand; Extracted.v, regenerated from /repo) *)
+Theorem c02_code_skeletons :
+  JRGen.Extracted.effects_handleResponse = JR.Skeletons.handleResponse /\
+  JRGen.Extracted.effects_handleWsConn = JR.Skeletons.handleWsConn /\
+  JRGen.Extracted.effects_setupRequestChan = JR.Skeletons.setupRequestChan.
+Proof. repeat split; reflexivity. Qed.
+
+Print Assumptions c02_code_skeletons.
 Print Assumptions c02_fresh_ids.
 Print Assumptions c02_deliver_needs_lookup.
 Print Assumptions c02_lookup_by_id.
@@ -89,3 +120,4 @@ Print Assumptions c02_one_receive_per_attempt.
 Print Assumptions c02_not_dropped.
 Print Assumptions c02_single_request_own_response.
 Print Assumptions c02_source_facts.
+Print Assumptions c02_take_enabled_under_any_load.
